@@ -189,12 +189,19 @@ func dialerUpgradeRules(c *Ctx, prop string) {
 	c.R.AddCells(len(all))
 	c.R.Paths += len(all)
 	var problems []string
+	var stale []string
 	succ := 0
 	for _, r := range all {
 		p := r.p
 		if p.Abort != "" || p.Panic {
 			problems = append(problems, "undecided: "+p.Abort+panicNote(p))
 			continue
+		}
+		for _, su := range staleUses(p, p.Ret) {
+			// OnStatusError is documented to receive the status line bytes while they are valid
+			if !strings.Contains(su, "OnStatusError") {
+				stale = append(stale, su)
+			}
 		}
 		script := cliScripts[r.script]
 		ret, _ := p.Ret.(fold.Tuple)
@@ -285,6 +292,9 @@ func dialerUpgradeRules(c *Ctx, prop string) {
 	if succ == 0 {
 		problems = append(problems, "undecided: no success path")
 	}
+	lrule := prop + ".handshake-buffer-lifetime"
+	c.R.Rule(lrule, 1, "no slice of a response line is used after a later line was read into the same pooled buffer, and none is returned")
+	c.verdict(lrule, lrule+"/Dialer.Upgrade", c.P.FuncPos(f), uniq(stale), fmt.Sprintf("%d paths: every view of a line dies before the next readLine", len(all)))
 	c.R.Sample(map[string]any{"rule": rule, "scripts": len(cliScripts), "paths": len(all), "success_paths": succ})
 	c.verdict(rule, rule+"/Dialer.Upgrade", c.P.FuncPos(f), uniq(problems), fmt.Sprintf("%d paths over %d scripted responses; %d succeed", len(all), len(cliScripts), succ))
 }
